@@ -63,7 +63,7 @@ def histories(rng, tier):
         h += [ln.replace(' m ', ' r ', 1).replace('r=dm', 'r=dr').replace(' dm', ' dr').replace('f=f2', 'f=f3')
               .replace('r=m2', 'r=r2').replace(' m2', ' r2') if not ln.endswith(' m') else ln[:-1] + 'r' for ln in cont]
         out.append(h)
-    return out
+    return [gen.file_variants(rng, h) for h in out]
 
 
 def nontrivial(h):
